@@ -986,69 +986,110 @@ theorem insert_node_at_var_eq (lt : α → α → Bool) (N : Nat) (s : SSet α) 
 
 /-! ### comparison operators
 
-`operator==`: different sizes are unequal; two large sets compare their backing sets (`operator==` of the backing set);
-otherwise at least one iteration sequence is unsorted and `std::is_permutation` is used.  `operator<`: an inline set is
-compared through a sorted vector of pointers to its elements — each side sorted with the comparator object of ITS OWN set
-(`ComputeSortedPtrVec(_vec, key_comp())`, `ComputeSortedPtrVec(o._vec, o.key_comp())`; in this model, as for `swap` and `merge`,
-both sets carry the same comparator `lt`) —, with `std::lexicographical_compare` and `<` of the element type. -/
+The generated const members on two sets take TWO comparator objects: `lt`, stored in `*this`, and `lt_o`, stored in the other
+set (`o.key_comp()`); `o < *this` reads `op_lt lt_o N o lt s`.  (With one shared `lt` the defects V24 / V26 — two sets of the same
+type whose comparator objects are in different states — cannot even be stated.)
 
-/-- the model of `operator==` -/
-def eqS (eqT : α → α → Bool) (s o : SSet α) : Bool :=
+`operator==`: different sizes are unequal; two large sets compare their backing sets (`operator==` of the backing set);
+otherwise an inline side is compared through a sorted vector of pointers to its elements — each side sorted with the comparator
+object of ITS OWN set (`ComputeSortedPtrVec(_vec, key_comp())`, `ComputeSortedPtrVec(o._vec, o.key_comp())`) — with the
+three-iterator `std::equal` and `==` of the element type: in every state this is `std::set`'s `operator==`, the element-wise
+comparison of the two iteration sequences.  (The historical source used `std::is_permutation` as soon as one side was inline:
+`eqPermS` below; that answer depends on the states of the two sets when their comparator objects differ.)
+`operator<`: the same two sequences, with `std::lexicographical_compare` and `<` of the element type. -/
+
+/-- the sequence that `operator==` / `operator<` compare: the backing set, or the inline elements sorted by `cmp` -/
+def sortedElems (cmp : α → α → Bool) (s : SSet α) : List α :=
+  if s.isSmall then Gen.SmallSet.sortedBy cmp s.vec else s.set
+
+/-- the model of `operator==`: the two sequences, each ordered by the comparator object of its own set, are compared element by
+    element with `==` of the element type (as `std::set::operator==` does) -/
+def eqS (lt lt_o eqT : α → α → Bool) (s o : SSet α) : Bool :=
+  Gen.SmallSet.vecEq eqT (sortedElems lt s) (sortedElems lt_o o)
+
+/-- the equality of the HISTORICAL source (`std::is_permutation` as soon as one side is inline); kept to state that nothing
+    changes for two sets that share their comparator (`Props/C04c.lean`, `C04_gen_eq_shared`) -/
+def eqPermS (eqT : α → α → Bool) (s o : SSet α) : Bool :=
   if s.size = o.size then
     (if s.isSmall then Gen.SmallSet.isPermutation eqT s.vec o.elems
      else if o.isSmall then Gen.SmallSet.isPermutation eqT s.set o.vec
      else Gen.SmallSet.vecEq eqT s.set o.set)
   else false
 
-theorem op_eq_eq (lt : α → α → Bool) (N : Nat) (s o : SSet α) (eqT : α → α → Bool) :
-    Gen.SmallSet.op_eq lt N s o eqT = some (eqS eqT s o, 0) := by
-  unfold Gen.SmallSet.op_eq eqS Gen.SmallSet.isSmallOf
-  simp only [size_eq, isSmall_eq]
-  by_cases hsz : s.size = o.size
-  · simp only [hsz, if_true, SSet.elems]
-    cases hs : s.isSmall <;> cases ho : o.isSmall <;> simp [SSet.isSmall] at hs ho ⊢ <;> simp [*]
-  · simp [hsz]
+/-- the lambda of the sort is the comparator object it captures -/
+theorem op_eq_pred_eq (lt : α → α → Bool) : Gen.SmallSet.op_eq_pred lt = lt := rfl
 
-theorem op_ne_eq (lt : α → α → Bool) (N : Nat) (s o : SSet α) (eqT : α → α → Bool) :
-    Gen.SmallSet.op_ne lt N s o eqT = some (!eqS eqT s o, 0) := by
+theorem sortedBy_length (cmp : α → α → Bool) (l : List α) : (Gen.SmallSet.sortedBy cmp l).length = l.length := by
+  unfold Gen.SmallSet.sortedBy
+  exact List.length_mergeSort l
+
+theorem sortedElems_length (cmp : α → α → Bool) (s : SSet α) : (sortedElems cmp s).length = s.size := by
+  unfold sortedElems SSet.size SSet.elems
+  cases s.isSmall <;> simp [sortedBy_length]
+
+theorem vecEq_length_ne (eqT : α → α → Bool) (l o : List α) (h : l.length ≠ o.length) :
+    Gen.SmallSet.vecEq eqT l o = false := by
+  induction l generalizing o with
+  | nil => cases o with
+    | nil => simp at h
+    | cons b u => simp [Gen.SmallSet.vecEq]
+  | cons a t ih =>
+    cases o with
+    | nil => simp [Gen.SmallSet.vecEq]
+    | cons b u =>
+      simp only [Gen.SmallSet.vecEq, ih u (by simpa using h), Bool.and_false]
+
+theorem op_eq_eq (lt : α → α → Bool) (N : Nat) (s : SSet α) (lt_o : α → α → Bool) (o : SSet α) (eqT : α → α → Bool) :
+    Gen.SmallSet.op_eq lt N s lt_o o eqT = some (eqS lt lt_o eqT s o, 0) := by
+  unfold Gen.SmallSet.op_eq eqS Gen.SmallSet.isSmallOf
+  simp only [size_eq, isSmall_eq, op_eq_pred_eq]
+  by_cases hsz : s.size = o.size
+  · have hlen : (sortedElems lt s).length = (sortedElems lt_o o).length := by
+      rw [sortedElems_length, sortedElems_length, hsz]
+    simp only [hsz, if_true]
+    unfold sortedElems at hlen ⊢
+    cases hs : s.isSmall <;> cases ho : o.isSmall <;> simp only [hs, ho, if_true, if_false, Bool.false_eq_true] at hlen ⊢ <;>
+      simp [SSet.isSmall] at hs ho <;> simp [*]
+  · have hlen : (sortedElems lt s).length ≠ (sortedElems lt_o o).length := by
+      rw [sortedElems_length, sortedElems_length]; exact hsz
+    simp [hsz, vecEq_length_ne eqT _ _ hlen]
+
+theorem op_ne_eq (lt : α → α → Bool) (N : Nat) (s : SSet α) (lt_o : α → α → Bool) (o : SSet α) (eqT : α → α → Bool) :
+    Gen.SmallSet.op_ne lt N s lt_o o eqT = some (!eqS lt lt_o eqT s o, 0) := by
   unfold Gen.SmallSet.op_ne
   rw [op_eq_eq]
-  cases eqS eqT s o <;> rfl
+  cases eqS lt lt_o eqT s o <;> rfl
 
-/-- the sequence that `operator<` compares: the backing set, or the inline elements sorted by `cmp` -/
-def sortedElems (cmp : α → α → Bool) (s : SSet α) : List α :=
-  if s.isSmall then Gen.SmallSet.sortedBy cmp s.vec else s.set
-
-/-- the model of `operator<`: the two sequences, each ordered by the comparator `lt` of the sets, are compared
+/-- the model of `operator<`: the two sequences, each ordered by the comparator object of its own set, are compared
     lexicographically with `<` of the element type -/
-def ltS (lt ltT : α → α → Bool) (s o : SSet α) : Bool :=
-  Gen.SmallSet.vecLess ltT (sortedElems lt s) (sortedElems lt o)
+def ltS (lt lt_o ltT : α → α → Bool) (s o : SSet α) : Bool :=
+  Gen.SmallSet.vecLess ltT (sortedElems lt s) (sortedElems lt_o o)
 
 /-- the lambda of the sort is the comparator object it captures -/
 theorem op_lt_pred_eq (lt : α → α → Bool) : Gen.SmallSet.op_lt_pred lt = lt := rfl
 
-theorem op_lt_eq (lt : α → α → Bool) (N : Nat) (s o : SSet α) (ltT : α → α → Bool) :
-    Gen.SmallSet.op_lt lt N s o ltT = some (ltS lt ltT s o, 0) := by
+theorem op_lt_eq (lt : α → α → Bool) (N : Nat) (s : SSet α) (lt_o : α → α → Bool) (o : SSet α) (ltT : α → α → Bool) :
+    Gen.SmallSet.op_lt lt N s lt_o o ltT = some (ltS lt lt_o ltT s o, 0) := by
   unfold Gen.SmallSet.op_lt ltS sortedElems Gen.SmallSet.isSmallOf
   simp only [isSmall_eq, op_lt_pred_eq]
   cases hs : s.isSmall <;> cases ho : o.isSmall <;> simp [SSet.isSmall] at hs ho ⊢ <;> simp [*]
 
-theorem op_gt_eq (lt : α → α → Bool) (N : Nat) (s o : SSet α) (ltT : α → α → Bool) :
-    Gen.SmallSet.op_gt lt N s o ltT = some (ltS lt ltT o s, 0) := by
+theorem op_gt_eq (lt : α → α → Bool) (N : Nat) (s : SSet α) (lt_o : α → α → Bool) (o : SSet α) (ltT : α → α → Bool) :
+    Gen.SmallSet.op_gt lt N s lt_o o ltT = some (ltS lt_o lt ltT o s, 0) := by
   unfold Gen.SmallSet.op_gt
   rw [op_lt_eq]
 
-theorem op_le_eq (lt : α → α → Bool) (N : Nat) (s o : SSet α) (ltT : α → α → Bool) :
-    Gen.SmallSet.op_le lt N s o ltT = some (!ltS lt ltT o s, 0) := by
+theorem op_le_eq (lt : α → α → Bool) (N : Nat) (s : SSet α) (lt_o : α → α → Bool) (o : SSet α) (ltT : α → α → Bool) :
+    Gen.SmallSet.op_le lt N s lt_o o ltT = some (!ltS lt_o lt ltT o s, 0) := by
   unfold Gen.SmallSet.op_le
   rw [op_lt_eq]
-  cases ltS lt ltT o s <;> rfl
+  cases ltS lt_o lt ltT o s <;> rfl
 
-theorem op_ge_eq (lt : α → α → Bool) (N : Nat) (s o : SSet α) (ltT : α → α → Bool) :
-    Gen.SmallSet.op_ge lt N s o ltT = some (!ltS lt ltT s o, 0) := by
+theorem op_ge_eq (lt : α → α → Bool) (N : Nat) (s : SSet α) (lt_o : α → α → Bool) (o : SSet α) (ltT : α → α → Bool) :
+    Gen.SmallSet.op_ge lt N s lt_o o ltT = some (!ltS lt lt_o ltT s o, 0) := by
   unfold Gen.SmallSet.op_ge
   rw [op_lt_eq]
-  cases ltS lt ltT s o <;> rfl
+  cases ltS lt lt_o ltT s o <;> rfl
 
 theorem vecEq_decide [DecidableEq α] (l o : List α) :
     Gen.SmallSet.vecEq (fun a b => decide (a = b)) l o = decide (l = o) := by
